@@ -764,10 +764,52 @@ def check_cfg_floats(x, path="cfg"):
             check_cfg_floats(v, f"{path}[{i}]")
 
 
+LENIENT = [False]   # set while a boundary-value run is built: positivity is then left to the repo constructors
+
+
 def check_num(x, lo=0.0, hi=1e6):
+    if LENIENT[0] and 0.0 < lo <= 1e-3:
+        lo = 0.0
     if isinstance(x, bool) or not isinstance(x, (int, float)) or not (lo <= x <= hi):
         raise InvalidScenario(f"number out of range: {x!r}")
     return x
+
+
+BV_SKIP_KEYS = ("arr", "tags", "net", "seed", "t0", "places", "at", "starters", "start_at", "nkeys", "n", "nb", "fan",
+                "shards", "parts", "nsteps", "horizon")
+
+
+def bv_candidates(cfg, path=()):
+    """Numeric leaves of a driver configuration that a boundary value can replace (timings, sizes, counts)."""
+    out = []
+    if isinstance(cfg, dict):
+        for k in sorted(cfg):
+            if k in BV_SKIP_KEYS:
+                continue
+            out.extend(bv_candidates(cfg[k], path + (k,)))
+    elif isinstance(cfg, list):
+        for i, v in enumerate(cfg):
+            out.extend(bv_candidates(v, path + (i,)))
+    elif isinstance(cfg, (int, float)) and not isinstance(cfg, bool):
+        out.append((list(path), cfg))
+    return out
+
+
+def bv_apply(cfg, muts):
+    import copy
+
+    c = copy.deepcopy(cfg)
+    for path, value in muts:
+        node = c
+        try:
+            for p in path[:-1]:
+                node = node[p]
+            if path[-1] not in (node if isinstance(node, dict) else range(len(node))):
+                raise KeyError(path[-1])
+            node[path[-1]] = value
+        except (KeyError, IndexError, TypeError) as e:
+            raise InvalidScenario(f"boundary path {path}: {e}") from e
+    return c
 
 
 def check_arr(arr, max_n=400):
